@@ -140,6 +140,9 @@ def generate(rng, tier):
     if rng.random() < 0.15:
         case["call_norm_object"] = True
     if rng.random() < 0.2:
+        # the other accepted spelling of the image mode at call level
+        case.setdefault("call_values", {})["mode"] = "imshow"
+    if rng.random() < 0.2:
         case["alias"] = rng.sample([0, 1, 2], 2)
     if rng.random() < 0.3:
         case["scatter_size"] = rng.choice(["array_mm", "array_cm", "qty"])
